@@ -316,6 +316,28 @@ func genC02(e *emitter, tier string) {
 		}
 		e.emit(historyCase("routing:"+hg.name, loader, g, steps))
 	}
+	// inputs of the same shape that differ only in the MIDDLE of a large tensor (rows 5-7 of 13, columns 5-7
+	// of 13), one call after the other: a Model that recognises "the same inputs as last time" by a summary of
+	// the tensor (a printed form, the first and last elements, a sampled hash) answers with the previous result
+	{
+		gw := &GraphJ{Inputs: []VInfoJ{{Name: "x", Dt: "f32", Dims: []any{"N", 13}}},
+			Inits: []InitJ{{Name: "w", T: smallT("f32", []int{13, 2}, 3)}},
+			Nodes: []NodeJ{{Op: "MatMul", Ins: []string{"x", "w"}, Outs: []string{"h"}}, {Op: "Relu", Ins: []string{"h"}, Outs: []string{"y"}}, {Op: "Abs", Ins: []string{"x"}, Outs: []string{"a"}}},
+			Outputs: []string{"y", "a"}}
+		base := func(delta float64) *TJ {
+			return seqT("f32", []int{13, 13}, func(i int) float64 {
+				r, c := i/13, i%13
+				v := float64((i*7)%11 - 5)
+				if r >= 5 && r <= 7 && c >= 5 && c <= 7 {
+					v += delta
+				}
+				return v
+			})
+		}
+		steps := []HistStep{{Inputs: []NamedT{{"x", base(0)}}}, {Inputs: []NamedT{{"x", base(3)}}, Note: "differs from the previous call only in the middle"},
+			{Inputs: []NamedT{{"x", base(0)}}}, {Inputs: []NamedT{{"x", base(-2)}}}, {Reuse: true}}
+		e.emit(historyCase("middle-of-large-input", func() (*gonnx.Model, error) { return loadModel(gw) }, gw, steps))
+	}
 	// a caller tensor that overrides an initializer, with the initializer's element count but another rank
 	// (inputs shadowed by initializers are not shape-checked): the caller's tensor stays as it was
 	for _, cs := range [][]int{{}, {1}, {1, 1}, {1, 1, 1}} {
